@@ -282,7 +282,12 @@ func (w *World) Apply(ev Event) bool {
 		if int(ev.Shard) >= len(w.Nodes) {
 			return false
 		}
-		if err := w.Nodes[ev.Shard].Restart(); err != nil {
+		restart := w.Nodes[ev.Shard].Restart
+		if ev.Probe == "same-factory" {
+			restart = w.Nodes[ev.Shard].Rebuild
+			w.Stats.Faults["rebuild-from-same-factory"]++
+		}
+		if err := restart(); err != nil {
 			w.violate(spec.Violation{Props: spec.P("C18"), Clause: "restart", Detail: fmt.Sprintf("rebuilding the container of shard %d failed: %v", ev.Shard, err)})
 		}
 		w.Stats.Restarts++
@@ -294,7 +299,10 @@ func (w *World) Apply(ev Event) bool {
 	default:
 		return false
 	}
-	if applied {
+	found := len(w.Found)
+	_ = found
+	if applied && !(w.StopAtFirst && len(w.Found) > 0) {
+		// (after a violation the event was abandoned half-way: the world is not judged further)
 		w.CheckInvariants()
 		if w.KeepLog {
 			w.Log = append(w.Log, fmt.Sprintf("  hash %016x pool=%d", w.Hash(), len(w.Pool)))
